@@ -950,7 +950,7 @@ class MessageBuilder:
         else:
             msg = "Too many arguments" + for_function(callee)
         self.fail(msg, context, code=codes.CALL_ARG)
-        self.maybe_note_about_special_args(callee, context)
+        self.maybe_note_about_special_args(callee, context, code=codes.CALL_ARG)
 
     def too_many_arguments_from_typed_dict(
         self, callee: CallableType, arg_type: TypedDictType, context: Context
@@ -971,10 +971,12 @@ class MessageBuilder:
         else:
             msg = "Too many positional arguments" + for_function(callee)
         self.fail(msg, context, code=codes.CALL_ARG_MISC)
-        self.maybe_note_about_special_args(callee, context)
+        self.maybe_note_about_special_args(callee, context, code=codes.CALL_ARG_MISC)
         self.note_defined_here(callee, context, code=codes.CALL_ARG_MISC)
 
-    def maybe_note_about_special_args(self, callee: CallableType, context: Context) -> None:
+    def maybe_note_about_special_args(
+        self, callee: CallableType, context: Context, *, code: ErrorCode
+    ) -> None:
         if self.prefer_simple_messages():
             return
         # https://github.com/python/mypy/issues/11309
@@ -985,6 +987,7 @@ class MessageBuilder:
                 'is not named "self", "cls", or "mcs", '
                 "maybe it is missing?",
                 context,
+                code=code,
             )
 
     def unexpected_keyword_argument_for_function(
